@@ -32,10 +32,70 @@ def _stmt(n):
     return n
 
 
+def _ownership(ctx, repo) -> None:
+    """Interpret __enter__ / __exit__ / stop / check of ExecutionTracer over schedules of two execution
+    threads and the executor: check() must raise exactly for a thread that is not the current owner, and
+    nothing an abandoned thread does later may take the tracer away from the thread that owns it by then."""
+    from sa.engine import peval
+
+    cres = peval.repo_class_resolver(repo)
+    mod = repo.module(TR)
+    tracer_cls = repo.cls(TR, "ExecutionTracer")
+    ctx.analysed(repo.methods(tracer_cls)["__exit__"])
+
+    def scenario(label, steps):
+        current = [None]
+        it = peval.Interp(resolver=peval.repo_resolver(repo), class_resolver=cres, externs={"threading.current_thread": lambda: peval.Obj("thread", fields={"ident": current[0]})})
+        tracer = it.instantiate("ExecutionTracer", cres("ExecutionTracer", mod), [], {}, init=False)
+        tracer.fields["_current_thread_identifier"] = None
+        log = []
+        try:
+            for thread, action, want in steps:
+                current[0] = thread
+                if action == "check":
+                    try:
+                        tracer.methods["check"]()
+                        got = "runs"
+                    except peval.Raises as exc:
+                        got = "aborted" if exc.name == "TracingAbortedException" else f"raises {exc.name}"
+                    log.append(f"{thread}.check -> {got}")
+                    if got != want:
+                        return f"after {'; '.join(log[:-1]) or 'start'}: thread {thread} {('is aborted' if got == 'aborted' else got)}, expected `{want}`"
+                elif action == "enter":
+                    tracer.methods["__enter__"]()
+                    log.append(f"{thread} enters")
+                elif action == "exit":
+                    tracer.methods["__exit__"](None, None, None)
+                    log.append(f"{thread} leaves")
+                elif action == "stop":
+                    tracer.methods["stop"]()
+                    log.append(f"{thread} calls stop()")
+        except peval.Undecided as exc:
+            ctx.undecide("C32.ownership", tracer_cls, f"{label}: {exc}")
+            return "undecided"
+        return None
+
+    A, B, EXECUTOR = 11, 22, 99
+    scenarios = [
+        ("one execution", [(A, "enter", None), (A, "check", "runs"), (B, "check", "aborted"), (A, "exit", None), (A, "check", "aborted")]),
+        ("timeout: the executor stops the tracer", [(A, "enter", None), (EXECUTOR, "stop", None), (A, "check", "aborted")]),
+        ("an abandoned thread unwinds while the next test runs", [(A, "enter", None), (EXECUTOR, "stop", None), (B, "enter", None), (B, "check", "runs"), (A, "check", "aborted"), (A, "exit", None), (B, "check", "runs"), (B, "exit", None), (B, "check", "aborted")]),
+        ("an abandoned thread unwinds between two tests", [(A, "enter", None), (EXECUTOR, "stop", None), (A, "exit", None), (B, "enter", None), (B, "check", "runs"), (A, "check", "aborted"), (B, "exit", None)]),
+        ("an abandoned thread never takes the tracer back", [(A, "enter", None), (EXECUTOR, "stop", None), (B, "enter", None), (A, "exit", None), (A, "check", "aborted"), (B, "check", "runs")]),
+        ("nobody owns a fresh tracer", [(A, "check", "aborted"), (EXECUTOR, "check", "aborted")]),
+    ]
+    for label, steps in scenarios:
+        problem = scenario(label, steps)
+        if problem == "undecided":
+            continue
+        ctx.check("C32.ownership", repo.methods(tracer_cls)["__exit__"], problem is None, f"[{label}] {problem}: the execution that owns the tracer is aborted by a thread that was abandoned earlier (its result comes back as a timeout with an empty trace), or a thread that lost the tracer keeps recording", what=f"[{label}]", stmt=f"[{label}]")
+
+
 def check(ctx) -> None:
     repo = ctx.repo
     ctx.rule("C32.early", "every ExecutionTracer method that writes the trace is wrapped by _early_return (disabled -> return; then check()); undecorated private writers are only called from wrapped methods", floor=14)
     ctx.rule("C32.wrapper", "_early_return tests is_disabled() and calls check() before the wrapped function; check() raises TracingAbortedException when the current thread is not the owner; stop() revokes ownership", floor=4)
+    ctx.rule("C32.ownership", "ABSINT: __enter__ / __exit__ / stop / check of ExecutionTracer interpreted over schedules of two execution threads and the executor: check() aborts exactly the threads that do not own the tracer, and an abandoned thread that unwinds later does not revoke the ownership of the thread that runs by then", floor=6)
     ctx.rule("C32.tls", "every trace mutation in ExecutionTracer goes through self._thread_local_state.trace (threading.local); no other attribute of the tracer holds the current trace", floor=14)
     ctx.rule("C32.abort", "on every exec path a handler naming TracingAbortedException precedes any BaseException / bare handler and re-raises or records the abort", floor=2)
     ctx.rule("C32.timeout", "the executor joins with timeouts bounded by the configured maximum, stops the tracer when the thread is still alive and returns a fresh ExecutionResult(timeout=True)", floor=5)
@@ -113,6 +173,9 @@ def check(ctx) -> None:
     ctx.check("C32.wrapper", stop, any(isinstance(n, ast.Assign) and norm(n) == "self._current_thread_identifier = None" for n in own_nodes(stop)), "stop() no longer revokes thread ownership", what="stop() clears the owner")
     ent = meths["__enter__"]
     ctx.check("C32.wrapper", ent, any(isinstance(n, ast.Assign) and norm(n) == "self._current_thread_identifier = threading.current_thread().ident" for n in own_nodes(ent)), "__enter__ no longer records the executing thread as owner", what="__enter__ records the owner")
+
+    # ------------------------------------------------------------------ C32.ownership
+    _ownership(ctx, repo)
 
     # ------------------------------------------------------------------ C32.tls
     tls = repo.cls(TR, "ExecutionTracer.TracerLocalState")
